@@ -737,6 +737,16 @@ func (s *Server) netServe() error {
 								var rwc io.ReadWriteCloser = conn
 								client.conn = rwc
 								if len(client.out) > 0 {
+									// replies of writes that came in the same
+									// packet: their log entries first
+									if s.aofdirty.Load() {
+										func() {
+											s.mu.Lock()
+											defer s.mu.Unlock()
+											s.flushAOF(false)
+											s.aofdirty.Store(false)
+										}()
+									}
 									client.conn.Write(client.out)
 									client.out = nil
 								}
